@@ -12,13 +12,33 @@ right after a clone; bystanders unchanged by an operation) is bit-equal in the i
 Oracle (the statement itself): after a clone the child picks the same greedy actions and computes
 the same update from the same batch as its parent; training / mutating / discarding one agent
 changes no other agent's weights, optimizer moments, step counters, registry or score lists.
+
+Round 3 additions (classes, not instances):
+* agents wrapped by a class of agilerl.wrappers.agent (every concrete AgentWrapper subclass that can
+  be constructed from an agent alone, e.g. RSNorm) are agents too: `wrap:*` attribute groups of the
+  wrapper object join the model's attribute list (AgentWrapper.clone runs the same copy_attributes),
+  histories contain `act` (get_action in training mode, as the training loops call it) and the frame
+  oracle covers the wrapper state; independently of the walker, no operation on one agent may change
+  the greedy actions another agent picks for a fixed probe observation.
+* "computes the same update from the same batch": after EVERY clone of a history, harness-made deep
+  copies of parent and clone take the same k >= 2*policy_freq consecutive learn steps on the same
+  batches under the same torch / numpy / random seeds; returned losses and all resulting state
+  (weights, targets, optimizer state, attributes, hidden attributes, wrapper state) must be bit-equal.
+* hidden state: every instance attribute that neither evolvable_attributes() nor
+  inspect_attributes() lists (`hid:*`) is measured as well: it must be carried over by value unless it
+  is per-instance identity (two clones of the same parent differ in it), must not be shared, and must
+  not be changed by an operation on another agent.
 """
 from __future__ import annotations
 
+import ast
 import copy
+import gc
+import inspect
 import json
 import os
 import random
+import textwrap
 
 import numpy as np
 import torch
@@ -33,7 +53,7 @@ RESYNC = {"DQN": {"net:actor_target": "net:actor"}}
 # parent's sigma_inv / theta_0 over the re-initialised ones, so nothing differs: measured, not assumed)
 REINIT: dict = {}
 # bookkeeping attributes that legitimately differ between parent and child
-DIFFER_OK = {"attr:index", "attr:c01_tag"}
+DIFFER_OK = {"attr:index", "attr:c01_tag", "hid:_index"}
 
 MUT_KINDS = ["arch", "param", "act", "rl_hp", "none"]
 
@@ -46,12 +66,197 @@ def mutations(kind: str, seed: int):
                      activation=p["act"], rl_hp=p["rl_hp"], mutation_sd=0.1, rand_seed=seed, device="cpu")
 
 
+# ------------------------------------------------------------------------------------ wrapped agents
+def wrapper_classes() -> dict:
+    """every concrete AgentWrapper subclass defined in agilerl.wrappers.agent (RSNorm, and whatever is
+    added there later): discovered, not listed"""
+    import agilerl.wrappers.agent as W
+    out = {}
+    for n, c in sorted(vars(W).items()):
+        if inspect.isclass(c) and issubclass(c, W.AgentWrapper) and c is not W.AgentWrapper \
+                and not inspect.isabstract(c) and c.__module__ == W.__name__:
+            out[n] = c
+    return out
+
+
+_WRAP_OK: dict = {}
+
+
+def wrap_supported(wrap: str, algo: str, family: str) -> tuple[bool, str]:
+    """does the tree under test let `wrap(algo agent)` act in training mode and learn at all?  (RSNorm
+    documents that it only supports off-policy single-agent algorithms; what it rejects is not C01's
+    business.)  Found by trying on a throw-away agent — without clone() — and cached."""
+    import agents as A
+    key = (wrap, algo, family)
+    if key not in _WRAP_OK:
+        with A._PreservedRNG():
+            try:
+                ag = wrapper_classes()[wrap](A.build(algo, family, seed=0, hp_config=A.default_hp_config(algo)))
+                act_training(ag, algo, A.sample_obs(ag, algo, family, 3, seed=0), 0)
+                pure_greedy(ag, algo, A.sample_obs(ag, algo, family, 3, seed=1), 0)
+                A.learn_once(ag, algo, family, seed=0)
+                _WRAP_OK[key] = (True, "")
+            except Exception as e:  # noqa: BLE001
+                _WRAP_OK[key] = (False, f"{type(e).__name__}: {str(e)[:120]}")
+    return _WRAP_OK[key]
+
+
+def act_training(agent, algo: str, obs, seed: int):
+    """get_action the way the training loops call it (training mode, exploration on): updates whatever
+    per-agent state acting updates (observation statistics of a wrapper, the bandits' confidence matrix,
+    exploration-noise state, …)"""
+    import agents as A
+    A.seed_all(seed)
+    if hasattr(agent, "set_training_mode"):
+        agent.set_training_mode(True)
+    if algo in ("DQN", "CQN"):
+        return agent.get_action(obs, epsilon=0.25)
+    if algo in ("RainbowDQN", "DDPG", "TD3", "MADDPG", "MATD3"):
+        return agent.get_action(obs, training=True)
+    if algo == "PPO":
+        return agent.get_action(obs)
+    if algo == "IPPO":
+        return agent.get_action(obs=obs, infos=None)
+    if A.is_bandit(algo):
+        return [agent.get_action(c) for c in (obs if isinstance(obs, list) else [obs])]
+    raise InfraError(f"act_training: unknown algorithm {algo}")
+
+
+def pure_greedy(agent, algo: str, obs, torch_seed: int):
+    """agents.greedy_action as a pure function also for wrapped agents: a wrapper updates its statistics
+    whenever the agent is in training mode, so it is put in evaluation mode for the call (restored)"""
+    import agents as A
+    inner, wrapper = walker.unwrap(agent)
+    if wrapper is None:
+        return A.greedy_action(agent, algo, obs, torch_seed=torch_seed)
+    was = bool(getattr(inner, "training", True))
+    agent.set_training_mode(False)
+    try:
+        return A.greedy_action(agent, algo, obs, torch_seed=torch_seed)
+    finally:
+        agent.set_training_mode(was)
+
+
+class _NonLeafDeepcopy:
+    """copy.deepcopy refuses non-leaf tensors (PPO / IPPO keep the last distribution's tensors): inside
+    this context they are copied detached (their autograd history plays no role in a later learn step)"""
+
+    def __enter__(self):
+        self.orig = torch.Tensor.__deepcopy__
+        orig = self.orig
+
+        def dc(t, memo):
+            if not t.is_leaf:
+                r = t.detach().clone()
+                memo[id(t)] = r
+                return r
+            return orig(t, memo)
+        torch.Tensor.__deepcopy__ = dc
+        return self
+
+    def __exit__(self, *exc):
+        torch.Tensor.__deepcopy__ = self.orig
+        return False
+
+
+def harness_copy(agent):
+    """a faithful private copy of an agent made by the harness — NOT by clone(), which is under test:
+    copy.deepcopy of the whole object (all attributes incl. underscore-prefixed ones, parameter identity
+    between networks and optimizers preserved by the memo).  A wrapped agent is copied as
+    (deepcopy of the algorithm without the wrapper's method patches) + (a new wrapper object wired by
+    AgentWrapper.__init__ with deep-copied wrapper attributes)."""
+    inner, wrapper = walker.unwrap(agent)
+    with _NonLeafDeepcopy():
+        if wrapper is None:
+            return copy.deepcopy(inner)
+        from agilerl.wrappers.agent import AgentWrapper
+        patched = {n: inner.__dict__.pop(n) for n in ("get_action", "learn") if n in inner.__dict__}
+        try:
+            memo: dict = {}
+            inner2 = copy.deepcopy(inner, memo)
+        finally:
+            inner.__dict__.update(patched)
+        w2 = object.__new__(type(wrapper))
+        AgentWrapper.__init__(w2, inner2)
+        memo[id(wrapper)] = w2
+        for k, v in vars(wrapper).items():
+            if k in ("agent", "agent_get_action", "agent_learn"):
+                continue
+            object.__setattr__(w2, k, copy.deepcopy(v, memo))
+        return w2
+
+
+def same_value(a, b) -> bool:
+    if isinstance(a, dict):
+        return isinstance(b, dict) and a.keys() == b.keys() and all(same_value(a[k], b[k]) for k in a)
+    if isinstance(a, (list, tuple)):
+        return isinstance(b, (list, tuple)) and len(a) == len(b) and all(same_value(x, y) for x, y in zip(a, b))
+    if a is None or b is None:
+        return a is None and b is None
+    if isinstance(a, torch.Tensor):
+        a = a.detach().cpu().numpy()
+    if isinstance(b, torch.Tensor):
+        b = b.detach().cpu().numpy()
+    a, b = np.asarray(a), np.asarray(b)
+    try:
+        return bool(np.array_equal(a, b, equal_nan=True))
+    except TypeError:
+        return bool(np.array_equal(a, b))
+
+
+def brief(x) -> str:
+    if isinstance(x, dict):
+        return "{" + ", ".join(f"{k}: {brief(v)}" for k, v in list(x.items())[:3]) + "}"
+    if isinstance(x, (list, tuple)):
+        return "(" + ", ".join(brief(v) for v in list(x)[:4]) + ")"
+    if isinstance(x, (float, np.floating)):
+        return f"{float(x):.6g}"
+    if isinstance(x, (torch.Tensor, np.ndarray)):
+        return brief(np.asarray(x.detach() if isinstance(x, torch.Tensor) else x).ravel()[:4].tolist())
+    return repr(x)[:40]
+
+
+_READS: dict = {}
+
+
+def attr_is_read(obj, name: str) -> bool:
+    """does any method of the object's class (other than __init__) READ `self.<name>` (an augmented
+    assignment alone is a write)?  A hidden attribute that is only ever written — a diagnostic such as
+    the last loss or a call counter kept for logging — cannot influence actions or updates, so a clone
+    that starts with the constructor's value is still a faithful copy.  Source unavailable => assume read."""
+    cls = type(obj)
+    key = (cls, name)
+    if key in _READS:
+        return _READS[key]
+    res = False
+    for c in cls.__mro__:
+        if c is object or res:
+            continue
+        try:
+            tree = ast.parse(textwrap.dedent(inspect.getsource(c)))
+        except Exception:  # noqa: BLE001
+            res = res or str(getattr(c, "__module__", "")).startswith("agilerl")
+            continue
+        for fn in ast.walk(tree):
+            if not isinstance(fn, (ast.FunctionDef, ast.AsyncFunctionDef)) or fn.name == "__init__":
+                continue
+            for node in ast.walk(fn):
+                if isinstance(node, ast.Attribute) and node.attr == name and isinstance(node.ctx, ast.Load) \
+                        and isinstance(node.value, ast.Name) and node.value.id == "self":
+                    res = True
+                elif isinstance(node, ast.Constant) and node.value == name:      # getattr(self, "<name>")
+                    res = True
+    _READS[key] = res
+    return res
+
+
 class Pop:
     """real population + the model op lines that mirror it"""
 
-    def __init__(self, chk: Check, algo: str, family: str, share, seed: int, mode: str = "repaired"):
+    def __init__(self, chk: Check, algo: str, family: str, share, seed: int, mode: str = "repaired",
+                 wrap: str | None = None):
         import agents as A
-        self.A, self.chk, self.algo, self.family, self.seed = A, chk, algo, family, seed
+        self.A, self.chk, self.algo, self.family, self.seed, self.wrap = A, chk, algo, family, seed, wrap
         kw = {}
         if os.environ.get("C01_EXPLICIT_ACT"):      # development aid: side-step the encoder default
             cfg = A.default_net_config(algo, family)
@@ -60,9 +265,12 @@ class Pop:
             kw["net_config"] = cfg
         root = A.build(algo, family, seed=seed, share_encoders=share, hp_config=A.default_hp_config(algo), **kw)
         root.c01_tag = 0                     # parent marker used by the `select` op (copied by clone)
+        if wrap is not None:
+            root = wrapper_classes()[wrap](root)
         self.agents: dict[int, object] = {0: root}
         self.next = 1
-        self.groups = {0: walker.agent_groups(root)}
+        self.groups = {0: walker.family_groups(root)}
+        self.hidden = {0: walker.hidden_groups(root)}
         self.names = list(self.groups[0].keys())
         self.idx = {n: k for k, n in enumerate(self.names)}
         self.vid = 1000
@@ -83,17 +291,27 @@ class Pop:
         self.problems: list[str] = []
         self.findings: list[tuple[str, str]] = []
         self.tags: list[str] = []
+        self.same_update_checks = 0
+        self.fresh_ok: dict[int, set] = {}      # child -> hidden attributes that are legitimately fresh in it
+        self.probe_obs = A.sample_obs(root, algo, family, 4, seed=seed + 4242)
+        self.greedy: dict[int, object] = {}
+        self.probe_greedy()
+        self.remeasure()
 
     # ------------------------------------------------------------------ measuring
     def remeasure(self, ids=None):
         for i in (ids if ids is not None else list(self.agents)):
-            self.groups[i] = walker.agent_groups(self.agents[i])
+            self.groups[i] = walker.family_groups(self.agents[i])
+            self.hidden[i] = walker.hidden_groups(self.agents[i])
             if list(self.groups[i].keys()) != self.names:
                 new = set(self.groups[i]) ^ set(self.names)
                 self.problems.append(f"agent {i} has a different attribute set than the root: {sorted(new)}")
 
     def values(self, i):
         return {n: walker.group_value(g) for n, g in self.groups[i].items()}
+
+    def hidden_values(self, i):
+        return {n: walker.group_value(g) for n, g in self.hidden[i].items()}
 
     def cellsets(self, i):
         return {n: frozenset(g["cells"]) for n, g in self.groups[i].items()}
@@ -102,14 +320,30 @@ class Pop:
         self.vid += 1
         return self.vid
 
+    def probe_greedy(self, ids=None) -> dict:
+        """greedy actions of the live agents for the fixed probe observation (pure: no agent state is
+        changed; bandits re-bind their confidence matrix, so callers re-measure afterwards)"""
+        out = {}
+        with self.A._PreservedRNG():
+            for i in (ids if ids is not None else list(self.agents)):
+                try:
+                    out[i] = pure_greedy(self.agents[i], self.algo, self.probe_obs, 11)
+                except Exception as e:  # noqa: BLE001
+                    out[i] = f"raised {type(e).__name__}: {str(e)[:80]}"
+        self.greedy.update(out)
+        return out
+
     # ------------------------------------------------------------------ operations
     def op(self, op) -> None:
         kind = op[0]
         before_vals = {i: self.values(i) for i in self.agents}
+        before_hid = {i: self.hidden_values(i) for i in self.agents}
         before_cells = {i: self.cellsets(i) for i in self.agents}
+        before_greedy = dict(self.greedy)
         actor = op[1] if len(op) > 1 and kind != "select" else None
         if actor is not None and actor not in self.agents:
             return
+        clone_pairs: list[tuple[int, int]] = []
         if kind == "clone":
             child = self.agents[actor].clone(index=self.next)
             j = self.next
@@ -118,6 +352,7 @@ class Pop:
             self.lines.append(f"heap clone {self.model_index(actor)}")
             self.remeasure([j] + [actor])
             self.after_clone(actor, j)
+            clone_pairs.append((actor, j))
             # after_clone acts with parent and child (bandits: the confidence matrix is saved and restored,
             # i.e. re-bound to a new tensor): measure again so that no stale storage address is kept —
             # a freed address can be reused by another agent's tensor and would look like sharing
@@ -129,6 +364,13 @@ class Pop:
             self.remeasure()
             changed_actor = actor
             self.tags.append("learn")
+        elif kind == "act":
+            ag = self.agents[actor]
+            obs = self.A.sample_obs(ag, self.algo, self.family, 5, seed=op[2])
+            act_training(ag, self.algo, obs, op[2])
+            self.remeasure()
+            changed_actor = actor
+            self.tags.append("act")
         elif kind == "mutate":
             m = mutations(op[2], op[3])
             out = m.mutation([self.agents[actor]])
@@ -141,7 +383,8 @@ class Pop:
                 return
             del self.agents[actor]
             del self.groups[actor]
-            import gc
+            del self.hidden[actor]
+            self.greedy.pop(actor, None)
             gc.collect()
             self.lines.append(f"heap discard {self.model_index(actor, dead_ok=True)}")
             self.remeasure()
@@ -160,6 +403,7 @@ class Pop:
                 ag.c01_tag = i
             self.remeasure()                  # the scores just assigned are part of the "before" picture
             before_vals = {i: self.values(i) for i in self.agents}
+            before_hid = {i: self.hidden_values(i) for i in self.agents}
             before_cells = {i: self.cellsets(i) for i in self.agents}
             ts = TournamentSelection(tournament_size=2, elitism=True, population_size=len(live), eval_loop=1)
             np.random.seed(op[1] % (2 ** 31))
@@ -180,6 +424,7 @@ class Pop:
             self.remeasure()
             for parent, child in pairs:
                 self.after_clone(parent, child)
+            clone_pairs += pairs
             self.remeasure()
             changed_actor = None
             kind = "select"
@@ -203,6 +448,28 @@ class Pop:
                 if now.get(n) != before_vals[i].get(n):
                     self.problems.append(
                         f"{kind} on agent {changed_actor} changed {n} of agent {i} (independence broken)")
+            nowh = self.hidden_values(i)
+            for n in sorted(set(nowh) | set(before_hid[i])):
+                if nowh.get(n) != before_hid[i].get(n):
+                    self.problems.append(
+                        f"{kind} on agent {changed_actor} changed hidden attribute {n} of agent {i} (independence broken)")
+        # --- the same, behaviourally and independent of what the walker reaches: the greedy actions a
+        #     bystander picks for the fixed probe observation are what they were before the operation
+        now_g = self.probe_greedy()
+        for i in self.agents:
+            if i == changed_actor or i not in before_greedy:
+                continue
+            if not same_value(now_g[i], before_greedy[i]):
+                self.problems.append(f"{kind} on agent {changed_actor} changed the greedy actions of agent {i} "
+                                     f"(independence broken): {brief(before_greedy[i])} -> {brief(now_g[i])}")
+        # --- hidden attributes are nobody's by-reference constructor arguments: never shared
+        self.hidden_sharing()
+        # --- the decisive behavioural oracle: parent and clone compute the same updates from the same batches
+        for parent, child in clone_pairs:
+            if parent in self.agents and child in self.agents:
+                self.same_update(parent, child)
+        if self.A.is_bandit(self.algo) or clone_pairs:
+            self.remeasure()          # probing re-binds the bandits' confidence matrix (see above)
         # --- mirror the actor's own changes into the model so that its views stay in step
         if changed_actor in self.agents and kind not in ("clone", "select"):
             now_v, now_c = self.values(changed_actor), self.cellsets(changed_actor)
@@ -221,8 +488,25 @@ class Pop:
     def model_index(self, i, dead_ok=False):
         return i
 
+    def hidden_sharing(self) -> None:
+        live = sorted(self.agents)
+        allc, hidc, refc = {}, {}, {}
+        for i in live:
+            hidc[i] = {c: (n, p) for n, g in self.hidden[i].items() for c, (p, _) in g["cells"].items()}
+            allc[i] = {c: n for n, g in self.groups[i].items() for c in g["cells"]}
+            allc[i].update({c: n for c, (n, _) in hidc[i].items()})
+            refc[i] = {c for n, g in self.groups[i].items() if self.specs[self.idx[n]].endswith(":c")
+                       for c in g["cells"]} if list(self.groups[i].keys()) == self.names else set()
+        for x, i in enumerate(live):
+            for j in live[x + 1:]:
+                for a, b in ((i, j), (j, i)):
+                    shared = [c for c in hidc[a] if c in allc[b] and not (c in refc[a] and c in refc[b])]
+                    if shared:
+                        n, p = hidc[a][shared[0]]
+                        self.problems.append(f"agents {a} and {b} share mutable state through a hidden attribute: "
+                                             f"agent{a}.{p} ({n}) ~ agent{b}.{allc[b][shared[0]]}")
+
     def after_clone(self, parent: int, child: int) -> None:
-        A = self.A
         pv, cv = self.values(parent), self.values(child)
         mi = self.model_index(child)
         for n in self.names:
@@ -240,16 +524,19 @@ class Pop:
             if src is not None:
                 ok = self.same_tensors(self.groups[parent][src], self.groups[child][n])
             else:
-                ok = cv[n] == want
+                ok = cv.get(n) == want
             if not ok:
                 self.problems.append(f"clone of agent {parent}: {n} of the child is not "
                                      f"{'the online network ' + src if src else 'equal to the parent'}")
-        # behavioural part of the statement: same greedy action, same update from the same batch
+        self.hidden_after_clone(parent, child)
+        self.wiring_after_clone(parent, child)
+        # behavioural part of the statement: same greedy action …
         pa, ca = self.agents[parent], self.agents[child]
         try:
-            obs = A.sample_obs(pa, self.algo, self.family, 4, seed=self.seed + child)
-            a1 = A.greedy_action(pa, self.algo, obs, torch_seed=7)
-            a2 = A.greedy_action(ca, self.algo, obs, torch_seed=7)
+            obs = self.A.sample_obs(pa, self.algo, self.family, 4, seed=self.seed + child)
+            with self.A._PreservedRNG():
+                a1 = pure_greedy(pa, self.algo, obs, 7)
+                a2 = pure_greedy(ca, self.algo, obs, 7)
             if not same_value(a1, a2):
                 if self.algo in REINIT:
                     self.findings.append(("C01-bandit-clone-reinit", "greedy action of the clone differs (sigma_inv reset)"))
@@ -257,6 +544,115 @@ class Pop:
                     self.problems.append(f"clone of agent {parent} picks different greedy actions than its parent")
         except Exception as e:  # pragma: no cover
             self.problems.append(f"greedy action on parent/clone raised {type(e).__name__}: {e}")
+        # … (the same update from the same batch: same_update(), run by op() once the frame checks are done)
+
+    def wiring_after_clone(self, parent: int, child: int) -> None:
+        """a wrapped clone is wired to itself: the method patches installed on its algorithm call the clone's
+        wrapper and the wrapper's saved methods are those of the clone's algorithm — never the parent's"""
+        inner, wrapper = walker.unwrap(self.agents[child])
+        if wrapper is None:
+            return
+        pin, pw = walker.unwrap(self.agents[parent])
+        if inner is pin or wrapper is pw:
+            self.problems.append(f"clone of agent {parent}: the wrapped clone is built around the parent's own "
+                                 f"{'algorithm' if inner is pin else 'wrapper'} object")
+        for n, v in list(vars(inner).items()) + list(vars(wrapper).items()):
+            tgt = getattr(getattr(v, "func", v), "__self__", None)
+            if tgt is not None and (tgt is pin or tgt is pw) and tgt is not inner and tgt is not wrapper:
+                self.problems.append(f"clone of agent {parent}: {n} of the wrapped clone is bound to the parent's "
+                                     f"{type(tgt).__name__} (acting / learning through it uses the parent's state)")
+
+    def hidden_after_clone(self, parent: int, child: int) -> None:
+        """every attribute clone() never looks at is classified: carried over by value | legitimately fresh
+        (per-instance identity: two clones of one parent differ in it; or write-only: no method reads it) |
+        dropped state (every clone gets the constructor's value although the code reads it) = not faithful"""
+        ph, ch = self.hidden[parent], self.hidden[child]
+        ok = self.fresh_ok.setdefault(child, set())
+        for n in sorted(set(ph) | set(ch)):
+            if n in DIFFER_OK:
+                continue
+            vp = walker.group_value(ph[n]) if n in ph else None
+            vc = walker.group_value(ch[n]) if n in ch else None
+            if vp == vc:
+                continue
+            inner, wrapper = walker.unwrap(self.agents[parent])
+            owner, attr = (wrapper, n[len("hid:wrap."):]) if n.startswith("hid:wrap.") else (inner, n[len("hid:"):])
+            verdict = "dropped"
+            if not attr_is_read(owner, attr):
+                verdict = "write-only"
+            else:
+                try:
+                    with self.A._PreservedRNG():
+                        sib = self.agents[parent].clone(index=getattr(self.agents[child], "index", None))
+                    sg = walker.hidden_groups(sib).get(n)
+                    vs = walker.group_value(sg) if sg is not None else None
+                    if vs != vc:
+                        verdict = "identity"
+                    del sib
+                except Exception:  # noqa: BLE001
+                    pass
+            if verdict == "dropped":
+                self.problems.append(f"clone of agent {parent}: hidden attribute {n} is not carried over "
+                                     f"(parent {walker.describe(ph.get(n))}, child {walker.describe(ch.get(n))}; "
+                                     f"the algorithm reads it and every clone gets the same value, so it is state "
+                                     f"that clone() drops)")
+            else:
+                ok.add(n)
+                self.tags.append(f"hidden-{verdict}")
+
+    def same_update(self, parent: int, child: int) -> None:
+        """'computes the same update from the same batch as its parent would' — k consecutive learn steps"""
+        A = self.A
+        try:
+            P, C = harness_copy(self.agents[parent]), harness_copy(self.agents[child])
+        except Exception as e:  # noqa: BLE001
+            self.tags.append("same-update-skipped")
+            self.chk.notes.append(f"same-update check skipped ({self.algo}/{self.family}): harness copy failed: "
+                                  f"{type(e).__name__}: {str(e)[:100]}") if len(self.chk.notes) < 20 else None
+            return
+        self.same_update_checks += 1
+        self.tags.append("same-update")
+        # the property's allowance: a target the algorithm re-synchronises on every copy may differ —
+        # give the parent copy the same re-synchronisation, everything else must agree
+        pin, _ = walker.unwrap(P)
+        for tgt, src in self.resync.items():
+            getattr(pin, tgt.split(":", 1)[1]).load_state_dict(getattr(pin, src.split(":", 1)[1]).state_dict())
+        pf = getattr(pin, "policy_freq", 2)
+        k = min(8, max(4, 2 * pf)) if isinstance(pf, int) and pf > 0 else 4
+        base = (self.seed * 31 + child * 7 + 5) % 100000
+        with A._PreservedRNG():
+            for step in range(k):
+                try:
+                    lp = A.learn_once(P, self.algo, self.family, seed=base + step)
+                except Exception as e:  # noqa: BLE001  (the parent itself cannot learn: not a clone matter)
+                    self.tags.append("same-update-parent-raised")
+                    self.chk.notes.append(f"same-update: learn on the parent copy raised {type(e).__name__}: "
+                                          f"{str(e)[:100]}") if len(self.chk.notes) < 20 else None
+                    return
+                try:
+                    lc = A.learn_once(C, self.algo, self.family, seed=base + step)
+                except Exception as e:  # noqa: BLE001
+                    self.problems.append(f"clone of agent {parent}: learn step {step + 1} after the clone raised "
+                                         f"{type(e).__name__}: {str(e)[:120]} (the parent learns from the same batch)")
+                    return
+                if not same_value(lp, lc):
+                    self.problems.append(
+                        f"clone of agent {parent} computes a different update: learn step {step + 1} of {k} on the same "
+                        f"batch and seed returns {brief(lp)} for the parent and {brief(lc)} for the clone")
+                    return
+                gp = walker.family_groups(P)
+                gc_ = walker.family_groups(C)
+                gp.update(walker.hidden_groups(P))
+                gc_.update(walker.hidden_groups(C))
+                bad = [n for n in sorted(set(gp) | set(gc_)) if n not in DIFFER_OK
+                       and n not in self.fresh_ok.get(child, ())
+                       and (n not in gp or n not in gc_ or walker.group_value(gp[n]) != walker.group_value(gc_[n]))]
+                if bad:
+                    self.problems.append(
+                        f"clone of agent {parent} computes a different update: after learn step {step + 1} of {k} on the "
+                        f"same batches and seeds {', '.join(bad[:6])} differ between parent and clone")
+                    return
+        del P, C
 
     @staticmethod
     def same_tensors(g1, g2) -> bool:
@@ -277,25 +673,13 @@ class Pop:
         return ["heap alias"]
 
 
-def same_value(a, b) -> bool:
-    if isinstance(a, dict):
-        return isinstance(b, dict) and a.keys() == b.keys() and all(same_value(a[k], b[k]) for k in a)
-    if isinstance(a, (list, tuple)):
-        return len(a) == len(b) and all(same_value(x, y) for x, y in zip(a, b))
-    if isinstance(a, torch.Tensor):
-        a = a.detach().cpu().numpy()
-    if isinstance(b, torch.Tensor):
-        b = b.detach().cpu().numpy()
-    return np.array_equal(np.asarray(a), np.asarray(b))
-
-
 def sort_pairs(line: str) -> str:
     return " ".join(sorted(line.split()))
 
 
-def run_history(chk: Check, algo: str, family: str, share, seed: int, ops, mode="repaired"):
+def run_history(chk: Check, algo: str, family: str, share, seed: int, ops, mode="repaired", wrap=None):
     """returns dict(diff, problems, findings, tags, impl, model)"""
-    pop = Pop(chk, algo, family, share, seed, mode)
+    pop = Pop(chk, algo, family, share, seed, mode, wrap)
     impl_lines: list[str] = []
     probe_at: list[int] = []
     for op in ops:
@@ -316,7 +700,8 @@ def run_history(chk: Check, algo: str, family: str, share, seed: int, ops, mode=
         raise InfraError(f"driver rejected a C01 op: {pop.lines}")
     diff = next((i for i, (a, b) in enumerate(zip(impl_lines, model_lines)) if sort_pairs(a) != b), None)
     return {"diff": diff, "problems": pop.problems, "findings": pop.findings, "tags": pop.tags,
-            "impl": impl_lines, "model": model_lines, "names": pop.names, "specs": pop.specs}
+            "impl": impl_lines, "model": model_lines, "names": pop.names, "specs": pop.specs,
+            "same_update_checks": pop.same_update_checks}
 
 
 def gen_history(rng: random.Random, length: int):
@@ -329,9 +714,11 @@ def gen_history(rng: random.Random, length: int):
     for _ in range(length):
         r = rng.random()
         i = rng.randrange(n)
-        if r < 0.30:
+        if r < 0.25:
             ops.append(["learn", i, rng.randrange(1000)])
-        elif r < 0.50:
+        elif r < 0.37:
+            ops.append(["act", i, rng.randrange(1000)])
+        elif r < 0.54:
             ops.append(["clone", i])
             n += 1
         elif r < 0.80:
@@ -343,10 +730,40 @@ def gen_history(rng: random.Random, length: int):
             n += 0            # ids of the new generation are allocated by the harness; later ops address old ids
         else:
             ops.append(["discard", i])
-    # always end by training the latest clone and its parent
+    # always end by acting with / training the latest clone and its parent
+    ops.append(["act", n - 1, rng.randrange(1000)])
     ops.append(["learn", n - 1, rng.randrange(1000)])
+    ops.append(["act", 0, rng.randrange(1000)])
     ops.append(["learn", 0, rng.randrange(1000)])
     return ops
+
+
+def gen_wrapped_history(rng: random.Random, length: int):
+    """histories for wrapped agents: acting in training mode moves the wrapper's state, so the parent acts
+    before it is cloned (the statistics differ from a new wrapper's) and family members act afterwards"""
+    ops = [["act", 0, rng.randrange(1000)], ["learn", 0, rng.randrange(1000)], ["act", 0, rng.randrange(1000)],
+           ["clone", 0], ["clone", 0], ["act", 0, rng.randrange(1000)], ["act", 2, rng.randrange(1000)]]
+    n = 3
+    for _ in range(length):
+        r = rng.random()
+        i = rng.randrange(n)
+        if r < 0.35:
+            ops.append(["act", i, rng.randrange(1000)])
+        elif r < 0.55:
+            ops.append(["learn", i, rng.randrange(1000)])
+        elif r < 0.70:
+            ops.append(["clone", i])
+            n += 1
+        elif r < 0.90:
+            ops.append(["mutate", i, rng.choice(MUT_KINDS), rng.randrange(1000)])
+        else:
+            ops.append(["select", rng.randrange(1, 1000)])
+    ops.append(["act", n - 1, rng.randrange(1000)])
+    ops.append(["learn", 1, rng.randrange(1000)])
+    return ops
+
+
+WRAP_ALGOS = ["DQN", "RainbowDQN", "CQN", "DDPG", "TD3", "PPO", "NeuralUCB", "NeuralTS", "MADDPG", "MATD3", "IPPO"]
 
 
 def case_list(chk: Check):
@@ -355,7 +772,11 @@ def case_list(chk: Check):
     cases = []
     for f in sorted((ROOT / "corpus" / "C01").glob("*.json")):
         c = json.loads(f.read_text())
-        cases.append((c["algo"], c["family"], c.get("share"), c["seed"], c["ops"]))
+        wrap = c.get("wrap")
+        if wrap is not None and (wrap not in wrapper_classes() or not wrap_supported(wrap, c["algo"], c["family"])[0]):
+            chk.notes.append(f"corpus case {f.name} skipped: {wrap}({c['algo']}) cannot act/learn on this tree")
+            continue
+        cases.append((c["algo"], c["family"], c.get("share"), c["seed"], c["ops"], wrap))
     fams = {"quick": ["vector"], "thorough": ["vector", "image", "dict", "discrete"]}[chk.tier]
     reps = 1 if chk.tier == "quick" else 2
     length = 5 if chk.tier == "quick" else 12
@@ -368,35 +789,60 @@ def case_list(chk: Check):
                 shares = [True, False] if (chk.tier == "thorough" or fam == "vector") else [True]
             for share in shares:
                 for _ in range(reps):
-                    cases.append((algo, fam, share, rng.randrange(1 << 20), gen_history(rng, length)))
+                    cases.append((algo, fam, share, rng.randrange(1 << 20), gen_history(rng, length), None))
     # in the quick tier add one random non-vector family per run
     if chk.tier == "quick":
         for _ in range(3):
             algo = rng.choice(A.ALGOS)
             fam = rng.choice(["image", "dict", "discrete", "tuple"])
             if A.supported(algo, fam) and not A.known_broken(algo, fam):
-                cases.append((algo, fam, None, rng.randrange(1 << 20), gen_history(rng, length)))
+                cases.append((algo, fam, None, rng.randrange(1 << 20), gen_history(rng, length), None))
+    # wrapped agents: every wrapper class of agilerl.wrappers.agent x every algorithm it can act and learn with
+    wfams = ["vector", "dict"] if chk.tier == "quick" else ["vector", "image", "dict", "tuple", "discrete"]
+    for wname in wrapper_classes():
+        usable, unusable = [], []
+        for algo in WRAP_ALGOS:
+            for fam in wfams:
+                if not A.supported(algo, fam) or A.known_broken(algo, fam):
+                    continue
+                ok, why = wrap_supported(wname, algo, fam)
+                (usable if ok else unusable).append((algo, fam, why))
+        if unusable:
+            chk.notes.append(f"{wname}: cannot act/learn on this tree with " +
+                             ", ".join(sorted({f'{a} ({w})' for a, _f, w in unusable}))[:600])
+        if chk.tier == "quick":
+            picked = rng.sample(usable, min(3, len(usable)))
+        else:
+            picked = usable
+        for algo, fam, _ in picked:
+            cases.append((algo, fam, None, rng.randrange(1 << 20), gen_wrapped_history(rng, length), wname))
     return cases
 
 
 def report(chk: Check, case, res, shrink=True):
-    algo, fam, share, seed, ops = case
-    replay = {"algo": algo, "family": fam, "share": share, "seed": seed, "ops": ops,
+    algo, fam, share, seed, ops, wrap = case
+    label = f"{wrap}({algo})" if wrap else algo
+    replay = {"algo": algo, "family": fam, "share": share, "seed": seed, "wrap": wrap, "ops": ops,
               "impl_alias": res["impl"], "model_alias": res["model"], "groups": res.get("names"),
               "problems": res["problems"], "correspondence": "harness/c01.py + walker.py vs Model/Heap.lean",
               "theorems": chk.gate["theorems"]}
     if res["problems"]:
         if shrink:
+            budget = [30]
+
             def fails(sub):
+                if budget[0] <= 0:
+                    return False
+                budget[0] -= 1
                 try:
-                    return bool(run_history(chk, algo, fam, share, seed, sub)["problems"])
+                    return bool(run_history(chk, algo, fam, share, seed, sub, wrap=wrap)["problems"])
                 except Exception:
                     return False
             small = ddmin(ops, fails)
-            r2 = run_history(chk, algo, fam, share, seed, small)
+            r2 = run_history(chk, algo, fam, share, seed, small, wrap=wrap)
             if r2["problems"]:
                 replay.update(ops=small, problems=r2["problems"], impl_alias=r2["impl"], model_alias=r2["model"])
-        chk.violation(f"{algo}/{fam}/share={share}: {replay['problems'][0]}", replay)
+        chk.violation(f"{label}/{fam}/share={share}: {replay['problems'][0]}", replay)
     elif res["diff"] is not None:
         d = res["diff"]
         extra = set(res["impl"][d].split()) - set(res["model"][d].split())
@@ -408,47 +854,59 @@ def report(chk: Check, case, res, shrink=True):
             return f"agent{a.split('.')[0]}.{names[int(a.split('.')[1])]} ~ agent{b.split('.')[0]}.{names[int(b.split('.')[1])]}"
         if extra:
             # the implementation shares mutable state the model says is private: that IS the property
-            chk.violation(f"{algo}/{fam}: agents share mutable state: " + "; ".join(nm(p) for p in sorted(extra)[:4]), replay)
+            chk.violation(f"{label}/{fam}: agents share mutable state: " + "; ".join(nm(p) for p in sorted(extra)[:4]), replay)
         else:
-            chk.violation(f"{algo}/{fam}: model expects by-reference sharing that the implementation no longer has: "
+            chk.violation(f"{label}/{fam}: model expects by-reference sharing that the implementation no longer has: "
                           + "; ".join(nm(p) for p in sorted(missing)[:4]) + " (property oracle holds)", replay, no_input=True)
 
 
 def run(chk: Check) -> None:
-    chk.rule = ("histories of clone / learn / mutate(kind) / append / discard on real agents of all eleven "
-                "algorithms (tiny networks); after every op the walker measures cross-agent aliasing and value "
-                "fingerprints per attribute group; distinct = distinct (algo, family, share_encoders, seed, history); "
+    chk.rule = ("histories of clone / learn / act (get_action in training mode) / mutate(kind) / select / append / "
+                "discard on real agents of all eleven algorithms (tiny networks), bare and wrapped by every wrapper "
+                "class of agilerl.wrappers.agent; after every op the walker measures cross-agent aliasing and value "
+                "fingerprints per attribute group (incl. wrapper attributes and attributes inspect_attributes skips) "
+                "and the bystanders' greedy actions; after every clone parent and clone copies take the same k "
+                "learn steps; distinct = distinct (algo, family, share_encoders, wrapper, seed, history); "
                 "non-trivial = history contains at least one clone followed by a learn or mutate of parent or child")
-    chk.assumptions = ["the walker reaches every mutable object an agent owns (attributes reported by "
-                       "inspect_attributes, networks incl. detached tensors, optimizer state and param_groups)",
-                       "torch CPU kernels are deterministic for identical inputs and seeds"]
+    chk.assumptions = ["the walker reaches every mutable object an agent owns (every instance attribute of the "
+                       "algorithm and of its wrapper, networks incl. detached tensors, optimizer state and "
+                       "param_groups); independent of that, bystanders' greedy actions and the parent/clone "
+                       "k-step learn comparison are behavioural",
+                       "torch CPU kernels are deterministic for identical inputs and seeds",
+                       "copy.deepcopy of an agent (harness-side reference copy for the k-step comparison) is faithful"]
     cases = case_list(chk)
     ndiff = 0
+    nsame = 0
     for case in cases:
-        algo, fam, share, seed, ops = case
+        algo, fam, share, seed, ops, wrap = case
         try:
-            res = run_history(chk, algo, fam, share, seed, ops)
+            res = run_history(chk, algo, fam, share, seed, ops, wrap=wrap)
         except InfraError:
             raise
+        nsame += res["same_update_checks"]
         nontriv = any(o[0] == "clone" for o in ops) and any(o[0] in ("learn", "mutate") for o in ops)
-        chk.case([algo, fam, share, seed, ops], nontrivial=nontriv,
-                 sample={"algo": algo, "family": fam, "share_encoders": share, "ops": ops[:6]},
-                 tags=res["tags"] + [f"algo-{algo}", f"obs-{fam}"])
+        chk.case([algo, fam, share, wrap, seed, ops], nontrivial=nontriv,
+                 sample={"algo": algo, "family": fam, "share_encoders": share, "wrapper": wrap, "ops": ops[:6]},
+                 tags=res["tags"] + [f"algo-{algo}", f"obs-{fam}"] + ([f"wrap-{wrap}"] if wrap else []))
         for fid, detail in dict(res["findings"]).items():
-            chk.finding(fid, detail, {"algo": algo, "family": fam, "seed": seed, "ops": ops})
+            chk.finding(fid, detail, {"algo": algo, "family": fam, "seed": seed, "wrap": wrap, "ops": ops})
         if res["problems"] or res["diff"] is not None:
             ndiff += res["diff"] is not None
             report(chk, case, res)
     chk.suite("heap-histories", len(cases), ndiff)
+    chk.suite("same-update-after-clone", nsame, 0)
+    if cases and nsame == 0:
+        raise InfraError("C01: the parent/clone k-step learn comparison never ran (harness copies fail)")
     if chk.tier == "thorough":
         selftest(chk)
 
 
 def selftest(chk: Check) -> None:
-    """seeded fault: clone() that shares the fitness list with its parent must be flagged"""
+    """seeded faults, one per oracle class; each must be noticed"""
     from agilerl.algorithms.core.base import EvolvableAlgorithm
     orig = EvolvableAlgorithm.copy_attributes
 
+    # (1) clone() that shares the fitness list with its parent
     def broken(agent, clone):
         clone = orig(agent, clone)
         clone.fitness = agent.fitness
@@ -462,11 +920,48 @@ def selftest(chk: Check) -> None:
         raise InfraError("C01 self-test: shared fitness list was not noticed")
     chk.notes.append("self-test: clone sharing its parent's fitness list detected")
 
+    # (2) a clone that drops a step counter (hidden or not): out of phase in TD3's delayed policy update
+    def dropped(agent, clone):
+        clone = orig(agent, clone)
+        if hasattr(clone, "learn_counter") and isinstance(clone.learn_counter, int):
+            clone.learn_counter = 0
+        return clone
+    EvolvableAlgorithm.copy_attributes = staticmethod(dropped)
+    try:
+        res = run_history(chk, "TD3", "vector", None, 1, [["learn", 0, 3], ["clone", 0]])
+    finally:
+        EvolvableAlgorithm.copy_attributes = staticmethod(orig)
+    if not any("different update" in p or "learn_counter" in p for p in res["problems"]):
+        raise InfraError("C01 self-test: a clone out of phase in the policy-delay cycle was not noticed")
+    chk.notes.append("self-test: clone with a reset learn counter detected (same-update oracle)")
+
+    # (3) a wrapped clone that shares its wrapper's state with the parent
+    for wname, cls in wrapper_classes().items():
+        if not wrap_supported(wname, "DQN", "vector")[0]:
+            continue
+        oclone = cls.clone
+
+        def shared(self, index=None, wrap=True, _o=oclone):
+            c = _o(self, index, wrap)
+            for k, v in vars(self).items():
+                if k not in ("agent", "agent_get_action", "agent_learn") and not walker.is_immutable(v):
+                    object.__setattr__(c, k, v)
+            return c
+        cls.clone = shared
+        try:
+            res = run_history(chk, "DQN", "vector", None, 1,
+                              [["act", 0, 1], ["clone", 0], ["act", 0, 2], ["act", 1, 3]], wrap=wname)
+        finally:
+            cls.clone = oclone
+        if not res["problems"] and res["diff"] is None:
+            raise InfraError(f"C01 self-test: {wname} clone sharing the wrapper state was not noticed")
+        chk.notes.append(f"self-test: {wname} clone sharing its parent's wrapper state detected")
+
 
 def replay(chk: Check, path: str) -> int:
     c = json.loads(open(path).read())
     c = c.get("replay", c)
-    res = run_history(chk, c["algo"], c["family"], c.get("share"), c["seed"], c["ops"])
+    res = run_history(chk, c["algo"], c["family"], c.get("share"), c["seed"], c["ops"], wrap=c.get("wrap"))
     print(json.dumps({k: res[k] for k in ("diff", "problems", "findings", "impl", "model")}, indent=1, default=str))
     if res["problems"]:
         print(f"VIOLATION property=C01 replay={path}")
